@@ -103,6 +103,15 @@ def replay(path):
         c = eems_case_from_line(line)
         out = eems.run_impl(c)
         print("impl:", eems.impl_summary(out))
+        piped = eems.run_pipeline(c)
+        print("impl, inside a Program of its own:", eems.impl_summary(piped) if piped["status"] == "ok" else (piped["kind"], piped["cls"]))
+        if item["case"].get("history"):
+            prog = eems.new_pipeline_program()
+            eems.arrays_lib().HOLD.clear()
+            for k, h in enumerate(item["case"]["history"] + [line]):
+                piped = eems.run_pipeline(eems_case_from_line(h), program=prog, tag="_%d_" % (k + 1))
+            print("impl, as command %d of one Program (after %d earlier cases):" % (k + 1, k),
+                  eems.impl_summary(piped) if piped["status"] == "ok" else (piped["kind"], piped["cls"]))
     return rc
 
 
